@@ -63,6 +63,7 @@ func SetTable(t Table) {
 		return
 	}
 	table.Store(t)
+	verifOnSetTable(t)
 }
 
 // Table contains a set of routes grouped by host.
